@@ -32,7 +32,7 @@ def run(ctx, res):
     PP.pop_unpop(P, reach, res)
     if ctx.tier == "thorough":
         from .. import loops as LP
-        LP.run(ctx, res, reach)
+        LP.run(ctx, res, reach, defect_for=("syntax-depth",))
         stale = PI.stale_rows(ctx, LAYERS)
         for k in stale[:40]:
             res.note("stale residue row (matches no site in this layer): %s" % k)
